@@ -153,6 +153,12 @@ func (pc *PubkeyCache) AddValidator(index ValidatorIndex, pub BLSPubkey) (*Pubke
 		}
 	}
 	pc.rwLock.Lock()
+	if expected := pc.trustedParentCount + ValidatorIndex(len(pc.idx2pub)); index < expected {
+		// Another goroutine appended an entry for this index between the checks above (under the
+		// read lock) and now: decide again against the new contents (no-op, or a conflict to fork out).
+		pc.rwLock.Unlock()
+		return pc.AddValidator(index, pub)
+	}
 	defer pc.rwLock.Unlock()
 	if expected := pc.trustedParentCount + ValidatorIndex(len(pc.idx2pub)); index != expected {
 		// index is unknown, but too far ahead of cache; in between indices are missing.
